@@ -429,11 +429,12 @@ pub fn gen(seed: u64, n: usize) -> Vec<Value> {
                     .map(|_| {
                         let len = rng.random_range(0..=16);
                         (0..len)
-                            .map(|_| if rng.random_bool(0.15) { [' ', ' ', '\t', '\u{00A0}'][rng.random_range(0..4)] } else { chars[rng.random_range(0..chars.len())] })
+                            .map(|_| if rng.random_bool(0.15) { [' ', ' ', ' ', '\t', '\u{00A0}', '\n', '\r', '\u{000B}', '\u{000C}', '\u{0085}', '\u{2028}', '\u{3000}'][rng.random_range(0..12)] } else { chars[rng.random_range(0..chars.len())] })
                             .collect()
                     })
                     .collect();
-                let max_vocab = if rng.random_bool(0.3) { 256 + specials.len() + rng.random_range(0..=tab.len()) } else { 0 };
+                let max_vocab = if rng.random_bool(0.3) { 256 + specials.len() + rng.random_range(0..=tab.len()) }
+                    else if rng.random_bool(0.15) { rng.random_range(1..=256 + specials.len()) } else { 0 };
                 out.push(json!({"kind": "bpe", "special": special, "g": g, "texts": texts, "unk": "<unk>",
                     "tab": tab, "max_vocab": max_vocab}));
             }
